@@ -41,7 +41,15 @@ _gen = re.compile(r"(\d[\d,]*) states generated, (\d[\d,]*) distinct states foun
 
 
 def run_mc(cfg, module, workers=8, timeout=1800, dump=None, tag=None, heap="6g", simulate=None, depth=None, seed=None):
-    """Run a model checking config. Returns dict with figures and violation info."""
+    """Run a model checking config (one retry on a machinery failure). Returns dict with figures and violation info."""
+    try:
+        return _run_mc_once(cfg, module, workers, timeout, dump, tag, heap, simulate, depth, seed)
+    except MachineryError:
+        time.sleep(5)
+        return _run_mc_once(cfg, module, workers, timeout, dump, tag, heap, simulate, depth, seed)
+
+
+def _run_mc_once(cfg, module, workers=8, timeout=1800, dump=None, tag=None, heap="6g", simulate=None, depth=None, seed=None):
     tag = tag or os.path.splitext(os.path.basename(cfg))[0]
     meta = os.path.join(OUT, "meta", tag + "-%d" % os.getpid())
     shutil.rmtree(meta, ignore_errors=True)
@@ -118,6 +126,15 @@ def _extract_prints(out, head):
 
 
 def _validate_shard(args):
+    """one retry: a JVM killed under memory pressure or a full disk is a transient machinery problem, not a verdict"""
+    try:
+        return _validate_shard_once(args)
+    except MachineryError:
+        time.sleep(5)
+        return _validate_shard_once(args)
+
+
+def _validate_shard_once(args):
     idx, traces, workdir, module, cfg, timeout = args
     path = os.path.join(workdir, "shard%03d.json" % idx)
     with open(path, "w") as f:
